@@ -3,6 +3,8 @@
 use crate::engine::{Ctx, Finding};
 use serde_json::Value;
 
+pub mod c01;
+pub mod c06;
 pub mod c08;
 pub mod c17;
 pub mod c18;
@@ -10,6 +12,8 @@ pub mod c19;
 
 pub fn run(ctx: &Ctx) -> bool {
     match ctx.prop.as_str() {
+        "C01" => c01::run(ctx),
+        "C06" => c06::run(ctx),
         "C08" => c08::run(ctx),
         "C17" => c17::run(ctx),
         "C18" => c18::run(ctx),
@@ -21,6 +25,8 @@ pub fn run(ctx: &Ctx) -> bool {
 
 pub fn replay(prop: &str, case: &Value) -> Option<Vec<Finding>> {
     Some(match prop {
+        "C01" => c01::replay(case),
+        "C06" => c06::replay(case),
         "C08" => c08::replay(case),
         "C17" => c17::replay(case),
         "C18" => c18::replay(case),
